@@ -1,4 +1,220 @@
 import IwModel.Model.Format
-/-! # C03 — a cleanly closed store reopens with identical contents (theorems follow) -/
+import IwModel.Lemmas.FormatEnc
+import IwModel.Lemmas.Format
+/-! # C03 — a cleanly closed store reopens with identical contents
+
+Reopen = reading the closed file. The writer side of the format (Model/FormatEnc.lean, tied byte for
+byte to real files by `drv fmt reenc`) and the reader (Model/Format.lean, the code that audits real
+files) are inverse to each other: record by record (`*_roundtrip`), for a whole node
+(`node_contents_roundtrip`) and for a whole database laid out in a file (`reopen_contents`). -/
 namespace IwModel.C03
+open IwModel IwModel.FormatEnc IwModel.Format
+
+/-- **Node record round trip.** Whatever `_sblk_sync_mm` writes for a well-formed node over *any* previous content
+of the 256-byte record (stale `n[]`/`lk` tails included), `_sblk_at2` reads back exactly. -/
+theorem sblk_roundtrip_over (old : Bytes) (s : SblkRec) (hold : old.length = Gen.SBLK_SZ) (h : WfSblk s) :
+    decSblk (encSblkOver old s) = some s := by
+  have hw := sblkWrites_wf s h
+  rw [← hold] at hw
+  have hlen : (encSblkOver old s).length = Gen.SBLK_SZ := by
+    rw [encSblkOver, length_pokes _ _ hw.1, hold]
+  exact decSblk_of_reads _ s hlen h (peek_pokes_mem old _ hw)
+
+/-- **Data block header + index round trip** (`_kvblk_sync_mm` / `_kvblk_at_mm`), whatever follows the index. -/
+theorem kvindex_roundtrip (k : KvIndex) (rest : Bytes) (h : WfKvIndex k) :
+    decKvIndex (encKvIndex k ++ rest) = some k := by
+  simp [decKvIndex, decKvIndexE_enc k rest h, Except.toOption]
+
+/-- **Record round trip**: `[klen:vn,key,value]` written by `_kvblk_addkv`, read with the slot length, whatever
+follows the record. -/
+theorem kv_roundtrip (k v rest : Bytes) (hk : k.length < 2 ^ 63) :
+    decKv (encKv k v ++ rest) (encKv k v).length = some (k, v) := by
+  simp [decKv, decKvE_enc k v rest hk, Except.toOption]
+
+/-- **Database header round trip** (`_db_save` + database branch of `_sblk_sync_mm` / `_db_at`). -/
+theorem dbhdr_roundtrip_over (old : Bytes) (d : DbHdr) (hold : old.length = Gen.DOFF_END) (h : WfDbHdr d) :
+    decDbHdr (encDbHdrOver old d) = some d := dbhdr_dec_enc_over old d hold h
+
+/-- the field widths of the allocator header add up to the generated header size -/
+theorem fsm_layout_total : FOFF_END = Gen.IWFSM_CUSTOM_HDR_DATA_OFFSET := FormatEnc.fsm_layout_total
+
+/-- **Allocator header round trip** (`_fsm_write_meta_lw` / `_fsm_read_meta_lr`). -/
+theorem fsmhdr_roundtrip (f : FsmHdr) (h : WfFsmHdr f) : decFsmHdr (encFsmHdr f) = some f := by
+  have hz : (zeros Gen.IWFSM_CUSTOM_HDR_DATA_OFFSET).length = Gen.IWFSM_CUSTOM_HDR_DATA_OFFSET := by simp [zeros]
+  have hw := fsmHdrWrites_wf f
+  rw [← hz] at hw
+  have hlen : (encFsmHdr f).length = Gen.IWFSM_CUSTOM_HDR_DATA_OFFSET := by
+    rw [encFsmHdr, length_pokes _ _ hw.1, hz]
+  have rd : ∀ w ∈ fsmHdrWrites f, peek (encFsmHdr f) w.1 w.2.length = w.2 := peek_pokes_mem _ _ hw
+  have f0 := rd (FOFF_MAGIC, leEnc 4 Gen.IWFSM_MAGICK) (by simp [fsmHdrWrites])
+  have f1 := rd (FOFF_BPOW, [f.bpow]) (by simp [fsmHdrWrites])
+  have f2 := rd (FOFF_BMOFF, leEnc 8 f.bmoff) (by simp [fsmHdrWrites])
+  have f3 := rd (FOFF_BMLEN, leEnc 8 f.bmlen) (by simp [fsmHdrWrites])
+  have f4 := rd (FOFF_CRZSUM, leEnc 8 f.crzsum) (by simp [fsmHdrWrites])
+  have f5 := rd (FOFF_CRZNUM, leEnc 4 f.crznum) (by simp [fsmHdrWrites])
+  have f6 := rd (FOFF_CRZVAR, leEnc 8 f.crzvar) (by simp [fsmHdrWrites])
+  have f7 := rd (FOFF_HDRLEN, leEnc 4 f.hdrlen) (by simp [fsmHdrWrites])
+  simp only [List.length_cons, List.length_nil, Nat.zero_add, length_leEnc] at f0 f1 f2 f3 f4 f5 f6 f7
+  have hm : leDec (leEnc 4 Gen.IWFSM_MAGICK) = Gen.IWFSM_MAGICK := leDec_leEnc4 _ (by decide)
+  simp only [decFsmHdr, byte, hlen, f0, f1, f2, f3, f4, f5, f6, f7, leDec_single, Nat.lt_irrefl, if_false,
+    leDec_leEnc8 _ h.bmoff, leDec_leEnc8 _ h.bmlen, leDec_leEnc8 _ h.crzsum, leDec_leEnc4 _ h.crznum,
+    leDec_leEnc8 _ h.crzvar, leDec_leEnc4 _ h.hdrlen, hm, ne_eq, not_true_eq_false]
+
+/-- node record in a fresh (zeroed) page slot -/
+theorem sblk_roundtrip (s : SblkRec) (h : WfSblk s) : decSblk (encSblk s) = some s :=
+  sblk_roundtrip_over _ s (by simp [zeros]) h
+
+theorem dbhdr_roundtrip (d : DbHdr) (h : WfDbHdr d) : decDbHdr (encDbHdr d) = some d :=
+  dbhdr_roundtrip_over _ d (by simp [zeros]) h
+
+/-- the encodings are byte strings of the right size -/
+theorem sblk_enc_bytes (s : SblkRec) (h : WfSblk s) : (encSblk s).length = Gen.SBLK_SZ ∧ Bytes.wf (encSblk s) := by
+  have hw := sblkWrites_wf s h
+  have hz : (zeros Gen.SBLK_SZ).length = Gen.SBLK_SZ := by simp [zeros]
+  refine ⟨by rw [encSblk, encSblkOver, length_pokes _ _ (by rw [hz]; exact hw.1), hz], ?_⟩
+  apply wf_pokes _ _ (wf_zeros _)
+  intro w hw'
+  simp only [sblkWrites, List.mem_cons, List.not_mem_nil, or_false] at hw'
+  rcases hw' with rfl | rfl | rfl | rfl | rfl | rfl | rfl | rfl | rfl | rfl
+  · exact wf_single _ h.flags
+  · exact wf_single _ (by have := h.lvl; simp [Gen.SLEVELS] at this; omega)
+  · exact wf_single _ (by have := h.lkl; simp [Gen.PREFIX_KEY_LEN_V2] at this; omega)
+  · exact wf_single _ (by have := h.pnum; simp [Gen.KVBLK_IDXNUM] at this; omega)
+  · exact leEnc_wf _ _
+  · exact leEnc_wf _ _
+  · exact h.pi
+  · exact encU4s_wf _
+  · exact wf_single _ h.bpos
+  · exact h.lk
+
+/-- every store of a well-formed write list is in the memory afterwards -/
+theorem holds_after_writes (old : Bytes) (ws : List (Nat × Bytes)) (h : WfWrites old.length ws) :
+    (pokes old ws).length = old.length ∧ ∀ w ∈ ws, Holds (pokes old ws) w := by
+  have hl := length_pokes old ws h.1
+  exact ⟨hl, fun w hw => ⟨by rw [hl]; exact h.1 w hw, peek_pokes_mem old ws h w hw⟩⟩
+
+/-- **A node is read back, whatever its slot assignment**: any node image with a readable geometry
+(`WfNode`), stored with non-overlapping stores over arbitrary old content, is returned by the reader. -/
+theorem node_roundtrip (old : Bytes) (s : Sblk) (h : WfNode old.length s) (hw : WfWrites old.length (nodeWrites s)) :
+    parseSblk (Mem.ofBytes (pokes old (nodeWrites s))) s.blk = .ok s := by
+  obtain ⟨hl, hh⟩ := holds_after_writes old (nodeWrites s) hw
+  exact parseSblk_ok _ s (by rw [hl]; exact h) hh
+
+/-- **Node contents round trip.** Records appended to a fresh data block the way `_kvblk_addkv` does it (record `j`
+into slot `j`, right below record `j-1`, offsets counted from the block end; `mkNode`, `layoutSlots`), the index
+synced by `_kvblk_sync_mm` and the node record by `_sblk_sync_mm`, are read back by the reader as the same
+record list in `pi` order, provided they fit the block (`NodeFits`: the test `_kvblk_addkv` makes before it
+grows the block) and node record and data block lie apart inside the file. -/
+theorem node_contents_roundtrip (old : Bytes) (p : NodePlace) (lvl : Nat) (n : List Nat) (p0 : Nat)
+    (recs : List (Bytes × Bytes)) (h : NodeFits old.length p lvl n p0 recs) :
+    (parseSblk (Mem.ofBytes (pokes old (nodeWrites (mkNode p lvl n p0 recs)))) p.blk).map (fun s => (s.pi, s.recs)) =
+      .ok (List.range recs.length, recs) := by
+  have := node_roundtrip old (mkNode p lvl n p0 recs) (mkNode_wf _ p lvl n p0 recs h) (mkNode_writes _ p lvl n p0 recs h)
+  have hb : (mkNode p lvl n p0 recs).blk = p.blk := rfl
+  rw [hb] at this
+  rw [this]
+  simp only [Except.map, mkNode_pi]
+  rfl
+
+/-- non-vacuity: a two-record node of level 1 at block 40 with a 512-byte data block at block 48 of an 8 KB file -/
+example : NodeFits 8192 ⟨40, 48, 9, 1⟩ 1 [0, 52] 30 [([3, 4], [5]), ([2], [9, 9, 200])] := by
+  refine ⟨by decide, by decide, by decide, by decide, by decide, by decide, by decide, by decide, ?_, ?_, by decide, ?_,
+    by decide, by decide, by decide⟩
+  · intro r hr; simp at hr; rcases hr with rfl | rfl <;> (intro b hb; simp at hb; omega)
+  · intro r hr; simp at hr; rcases hr with rfl | rfl <;> simp [encKv, enc_small, Gen.IWKV_MAX_KVSZ]
+  · simp [layoutSlots, layoutOffs, encKv, enc_small, encSlots, total_cons, total_nil, Gen.KVBLK_IDXNUM, Gen.KVBLK_HDRSZ,
+      List.replicate]
+
+/-- **Reopen reads back what close left in the file.** Take any database image `d` the C code can have
+written (`WfDbImg`: field ranges of the C types, level-0 links threading the nodes, every slot naming a
+record of its length, and the *layout*: all stores inside the file and pairwise disjoint), write it over
+arbitrary old file content with the stores of the C writers (`dbWrites`: database block, metadata, node
+records, data-block indexes, records at `block_end - off`), and run the reader that audits real files
+(`Format.parseDb`) on the result: it returns exactly `d` — same id, flags, links, counters, nodes, and the
+records of every node in `pi` order — and the metadata bytes. -/
+theorem reopen_contents (old : Bytes) (d : DbImg) (mdata : Bytes) (h : WfDbImg old.length d mdata) :
+    parseDb (Mem.ofBytes (writeDb old d mdata)) d.blk = .ok d ∧
+    metaOf (Mem.ofBytes (writeDb old d mdata)) d mdata.length = mdata := by
+  obtain ⟨hl, hh⟩ := holds_after_writes old (dbWrites d mdata) h.writes
+  exact parseDb_ok (writeDb old d mdata) d mdata (by rw [writeDb, hl]; exact h) hh
+
+/-- … in particular the flattened record list, the id and the flags -/
+theorem reopen_records (old : Bytes) (d : DbImg) (mdata : Bytes) (h : WfDbImg old.length d mdata) :
+    (parseDb (Mem.ofBytes (writeDb old d mdata)) d.blk).map (fun r => (r.id, r.flags, r.nodes.flatMap (·.recs))) =
+      .ok (d.id, d.flags, d.nodes.flatMap (·.recs)) := by
+  rw [(reopen_contents old d mdata h).1]; rfl
+
+/-- **Reopen of a key-value database.** Take a database as the key-value model has it — a list of nodes, each
+with its skip-list level and its records (stored key, value) in key order (`Kv.Node`) — its id, flags and metadata,
+and a layout (`DbPlace`, `NodePlace` per node: block of the node record, block and size of its data block, page
+slot) such that everything fits and the regions are inside the file and pairwise disjoint (`DbFits`). Write it
+the way the C code does (`mkDb` threads the links, `writeDb` performs the stores) over arbitrary old file
+content. The reader that audits real files then returns the same id and flags, the same node list (levels and
+records, hence the same `Kv.flatten`-ed record list) and the same metadata. -/
+theorem reopen_db (old : Bytes) (dp : DbPlace) (flags id next : Nat) (mdata : Bytes) (ns : List PNode)
+    (h : DbFits old.length dp flags id next mdata ns) :
+    (parseDb (Mem.ofBytes (writeDb old (mkDb dp flags id next ns) mdata)) dp.blk).map
+        (fun r => (r.id, r.flags, r.nodes.map fun s => (⟨s.lvl, s.recs⟩ : Kv.Node Bytes Bytes))) =
+      .ok (id, flags, ns.map PNode.node) ∧
+    (parseDb (Mem.ofBytes (writeDb old (mkDb dp flags id next ns) mdata)) dp.blk).map
+        (fun r => r.nodes.flatMap (·.recs)) = .ok (Kv.flatten (ns.map PNode.node)) ∧
+    metaOf (Mem.ofBytes (writeDb old (mkDb dp flags id next ns) mdata)) (mkDb dp flags id next ns) mdata.length = mdata := by
+  have hr := reopen_contents old (mkDb dp flags id next ns) mdata (mkDb_wf _ dp flags id next mdata ns h)
+  have hb : (mkDb dp flags id next ns).blk = dp.blk := rfl
+  rw [hb] at hr
+  refine ⟨?_, ?_, hr.2⟩
+  · rw [hr.1]
+    simp only [Except.map]
+    have : (mkDb dp flags id next ns).nodes = mkNodes dp.blk ns := rfl
+    rw [this, mkNodes_nodes]
+    rfl
+  · rw [hr.1]
+    simp only [Except.map]
+    have : (mkDb dp flags id next ns).nodes = mkNodes dp.blk ns := rfl
+    rw [this, mkNodes_recs]
+    simp [Kv.flatten, PNode.node, List.flatMap_map]
+
+def exA : PNode := ⟨⟨8, 16, 9, 1⟩, 1, [([9, 9], [1]), ([8], [2, 2])]⟩
+def exB : PNode := ⟨⟨10, 24, 9, 2⟩, 0, [([5], []), ([1, 2, 3], [7])]⟩
+
+theorem exA_fits : PNodeFits exA := by
+  refine ⟨by decide, by decide, by decide, by decide, by decide, by decide, ?_, ?_, by decide, ?_⟩
+  · intro r hr; simp [exA] at hr; rcases hr with rfl | rfl <;> (intro b hb; simp at hb; omega)
+  · intro r hr; simp [exA] at hr; rcases hr with rfl | rfl <;> simp [encKv, enc_small, Gen.IWKV_MAX_KVSZ]
+  · simp [exA, layoutSlots, layoutOffs, encKv, enc_small, encSlots, total_cons, total_nil, Gen.KVBLK_IDXNUM, Gen.KVBLK_HDRSZ,
+      List.replicate]
+
+theorem exB_fits : PNodeFits exB := by
+  refine ⟨by decide, by decide, by decide, by decide, by decide, by decide, ?_, ?_, by decide, ?_⟩
+  · intro r hr; simp [exB] at hr; rcases hr with rfl | rfl <;> (intro b hb; simp at hb; omega)
+  · intro r hr; simp [exB] at hr; rcases hr with rfl | rfl <;> simp [encKv, enc_small, Gen.IWKV_MAX_KVSZ]
+  · simp [exB, layoutSlots, layoutOffs, encKv, enc_small, encSlots, total_cons, total_nil, Gen.KVBLK_IDXNUM, Gen.KVBLK_HDRSZ,
+      List.replicate]
+
+/-- non-vacuity of `reopen_db`: two nodes (levels 1 and 0, two records each) in an 8 KB file -/
+example : DbFits 8192 ⟨2, 6, 1⟩ 64 7 0 [1, 2, 3, 4, 5] [exA, exB] := by
+  refine ⟨by decide, by decide, by decide, by decide, by decide, by decide, by decide, by decide, ?_, ?_, ?_⟩
+  · intro x hx; simp at hx; rcases hx with rfl | rfl
+    · exact exA_fits
+    · exact exB_fits
+  · simp [dbRegions, nodeRegions, exA, exB, bs, Gen.IWKV_FSM_BPOW, Gen.DOFF_END, Gen.SBLK_SZ]
+  · simp [dbRegions, nodeRegions, exA, exB, bs, disj, Gen.IWKV_FSM_BPOW, Gen.DOFF_END, Gen.SBLK_SZ]
+
+example : WfSblk { flags := 1, lvl := 2, lkl := 3, pnum := 2, p0 := 70000, kblk := 12345678,
+                   piAll := 5 :: 0 :: List.replicate 30 7, n := [9, 0, 4000000000], bpos := 16, lk := [1, 255, 0] } := by
+  constructor <;> first | decide | (intro x hx; simp at hx; omega)
+
+example : WfKvIndex (KvIndex.ofSlots 9 ((300, 200) :: (100, 100) :: List.replicate 30 (0, 0))) := by
+  apply wfKvIndex_ofSlots _ _ (by decide) (by decide)
+  intro p hp
+  simp only [List.mem_cons, List.mem_replicate] at hp
+  rcases hp with rfl | rfl | ⟨_, rfl⟩ <;> decide
+
+example : WfDbHdr { flags := 96, id := 7, next := 0, p0 := 44, n := 44 :: List.replicate 23 0, c := 1 :: List.replicate 23 0,
+                    metaBlk := 90, metaBlkn := 3 } := by
+  constructor <;> first | decide | (intro x hx; simp at hx; omega)
+
+example : WfFsmHdr { bpow := 7, bmoff := 4096, bmlen := 8192, crzsum := 100000, crznum := 77, crzvar := 1 <<< 40, hdrlen := 255 } := by
+  constructor <;> decide
+
 end IwModel.C03
